@@ -122,6 +122,24 @@ fn synth_case(_ctx: &Ctx, case: u64, r: &mut Rng, rep: &mut Report) {
             }
         }
     }
+    // the premise, against EVERY parent state: a file whose content differs from a parent's version also differs from it
+    // in size or mtime (two edit scripts starting from the same state can bump an mtime to the same value)
+    {
+        let parents: Vec<&ModelTree> = if two_parents { vec![&m1, &m1b] } else { vec![&m1] };
+        let keys: Vec<crate::model::PathKey> = m2.entries.keys().cloned().collect();
+        for k in keys {
+            loop {
+                let e = &m2.entries[&k];
+                let Kind::File(b) = &e.kind else { break };
+                let clash = parents.iter().any(|p| p.entries.get(&k).is_some_and(|o| matches!(&o.kind, Kind::File(ob) if ob != b && ob.len() == b.len()) && o.mtime == e.mtime));
+                if !clash {
+                    break;
+                }
+                m2.entries.get_mut(&k).unwrap().mtime.0 += 7;
+                rep.count("mtime_clashes_between_parent_states_resolved", 1);
+            }
+        }
+    }
     // inodes may change (file replaced) - irrelevant for the statement
     let inode_base2 = if inode_base != 0 && r.chance(1, 3) { 5000 } else { inode_base };
     let ign_ctime = r.chance(1, 3);
